@@ -71,6 +71,9 @@ type Stream struct {
 	recvBuf     *linkedBuffer
 	sendBuf     *linkedBuffer
 	pendingData *pendingData
+	// sendMux keeps clean() away from the send buffer while Flush hands it over: Close may run on another goroutine
+	// (e.g. a callback closing the stream on the answer to a message whose Flush has not returned yet).
+	sendMux sync.Mutex
 
 	recvNotifyCh    chan struct{}
 	closeNotifyCh   chan struct{}
@@ -206,11 +209,27 @@ func (s *Stream) Flush(endStream bool) error {
 	if s.sendBuf.Len() == 0 {
 		return nil
 	}
+	s.sendMux.Lock()
+	fallbackData, err := s.handOverSendBuf(endStream)
+	s.sendMux.Unlock()
+	if err != nil {
+		return err
+	}
+	if fallbackData != nil {
+		return s.session.waitForSend(nil, fallbackData)
+	}
+	return s.session.wakeUpPeer()
+}
+
+// handOverSendBuf passes the content of the send buffer to the peer through the queue, or returns it as a fallback event
+// to be written to the connection. Afterwards the send buffer is empty: buffers which belong to the peer now must not be
+// recycled by a concurrent Close.
+func (s *Stream) handOverSendBuf(endStream bool) (fallbackData []byte, err error) {
 	atomic.AddUint64(&s.session.stats.outFlowBytes, uint64(s.sendBuf.Len()))
 	state := s.getStreamState()
 	if state != uint32(streamOpened) {
 		s.sendBuf.recycle()
-		return ErrStreamClosed
+		return nil, ErrStreamClosed
 	}
 	s.sendBuf.done(endStream)
 	defer s.sendBuf.clean()
@@ -219,12 +238,12 @@ func (s *Stream) Flush(endStream bool) error {
 		s.inFallbackState = true
 	}
 	if s.inFallbackState {
-		return s.writeFallback(s.state, ErrNoMoreBuffer)
+		return s.encodeFallback(s.state, ErrNoMoreBuffer), nil
 	}
 	buf := s.sendBuf
 	// s.session.logger.tracef("stream:%d send buf, size:%d cap:%d offset:%d", s.id, buf.Len(), buf.Cap(),
 	// buf.rootBufOffset())
-	err := s.session.sendQueue().put(queueElement{
+	err = s.session.sendQueue().put(queueElement{
 		seqID:          s.id,
 		offsetInShmBuf: buf.rootBufOffset(),
 		status:         state,
@@ -254,12 +273,13 @@ func (s *Stream) Flush(endStream bool) error {
 	}
 	if err != nil {
 		buf.recycle()
-		return err
+		return nil, err
 	}
-	return s.session.wakeUpPeer()
+	return nil, nil
 }
 
-func (s *Stream) writeFallback(streamStatus uint32, err error) error {
+// encodeFallback copies the send buffer into a fallback data event and recycles the send buffer.
+func (s *Stream) encodeFallback(streamStatus uint32, err error) []byte {
 	s.session.logger.warnf("stream fallback seqID:%d len:%d reason:%s, sendBuf.isFromShareMemory: %t",
 		s.id, s.sendBuf.Len(), err.Error(), s.sendBuf.isFromShareMemory())
 	var event fallbackDataEvent
@@ -273,7 +293,7 @@ func (s *Stream) writeFallback(streamStatus uint32, err error) error {
 	s.sendBuf.recycle()
 	s.session.openCircuitBreaker()
 	atomic.AddUint64(&s.session.stats.fallbackWriteCount, 1)
-	return s.session.waitForSend(nil, data)
+	return data
 }
 
 // Close used to close the stream, which maybe block if there is StreamCallbacks running.
@@ -351,7 +371,9 @@ func (s *Stream) clean() {
 	s.session.onStreamClose(s.id, streamState(s.getStreamState()))
 	s.pendingData.clear()
 	s.recvBuf.recycle()
+	s.sendMux.Lock()
 	s.sendBuf.recycle()
+	s.sendMux.Unlock()
 }
 
 func (s *Stream) halfClose() {
